@@ -53,7 +53,8 @@ LinkPool == {<< <<PW(1)>>, <<PW(2)>> >>, << <<>>, <<PW(1)>> >>, << <<PW(2)>>, <<
 \* tag values: strings, a value-less tag (NILV), a value marked safe (SAFEV), an integer
 TagPool == {<< <<PW(1)>>, <<PW(2)>> >>, << <<PW(2)>>, <<PW(1)>>, <<PW(1)>>, <<PW(3)>> >>,
             << <<PW(1)>>, <<"NILV">>, <<PW(2)>>, <<"SAFEV", PW(3)>> >>, << <<PW(3)>>, <<"n5">> >>}
-CodePool == {<< <<"n404">> >>, << <<"n5">> >>}
+\* (n2 is codes.Unknown: attached explicitly, it still is the most recent code)
+CodePool == {<< <<"n404">> >>, << <<"n5">> >>, << <<"n2">> >>}
 ULeafKinds == {"uPtrLeaf", "uValLeaf", "uValPtrLeaf", "uRegLeaf", "uMaybe"}
 UWrapKinds == {"uWrapU", "uWrapC", "uWrapUC", "uWrapFull", "uRegWrap", "uRegWrapFull", "uAnnotWrap", "uKeyWrap", "uMaybe"}
 
